@@ -162,6 +162,34 @@ impl Property for C10 {
         if rqd != rqd2 {
             return Err(Failure::new("Options::derive() changed more than the derive string").with_detail(json!({"builder": rqd, "explicit": rqd2})));
         }
+        // child rename rule against the documents: every child name has a field bound to its local name,
+        // and that field carries a rename exactly when its identifier differs from the local name
+        {
+            let schema = crate::refinf::infer_docs(&p.case.docs);
+            let defs = crate::rendered::read_lines(&rq).map_err(|e| Failure::new(format!("preset output unreadable: {}", e)).with_detail(detail(&exp)))?;
+            let tree = crate::rendered::build_tree(&defs, "@", "$text").map_err(|e| Failure::new(format!("preset output is not a tree: {}", e)).with_detail(detail(&exp)))?;
+            fn walk(s: &crate::refinf::Schema, r: &crate::rendered::RNode, defs: &[crate::rendered::StructDef]) -> Result<u64, String> {
+                let mut n = 0;
+                let d = &defs[r.def_index];
+                for c in &s.children {
+                    let local = crate::model::local_of(&c.schema.name);
+                    let f = d.fields.iter().find(|f| f.bound() == local && !f.bound().starts_with('@') && f.bound() != "$text");
+                    let f = f.ok_or_else(|| format!("struct {}: child `{}` has no field bound to `{}` (a rename is missing or wrong)", d.name, c.schema.name, local))?;
+                    if f.rename.is_some() == (f.ident == local) {
+                        return Err(format!("struct {}: field `{}` for child `{}` {} a rename although its identifier {} the local name", d.name, f.ident, c.schema.name, if f.rename.is_some() { "carries" } else { "lacks" }, if f.ident == local { "equals" } else { "differs from" }));
+                    }
+                    n += 1;
+                    if let Some(rc) = r.child(local) {
+                        if let Some(sub) = &rc.node {
+                            n += walk(&c.schema, sub, defs)?;
+                        }
+                    }
+                }
+                Ok(n)
+            }
+            let n = walk(&schema, &tree, &defs).map_err(|e| Failure::new(format!("child rename rule: {}", e)).with_detail(detail(&exp)))?;
+            st.add("child_rename_decisions_checked_against_documents", n);
+        }
         // child renames: never redundant
         for (i, l) in base.split('\n').enumerate() {
             if let Some(rest) = l.strip_prefix("    #[serde(rename = \"") {
@@ -179,7 +207,7 @@ impl Property for C10 {
         Ok(())
     }
     fn rule(&self) -> String {
-        "tape-decoded document sequences x options (attribute prefix, text identifier and derive string from curated lists that include empty, unicode, quotes, parentheses, newline; both sort orders). The tree is rendered once with private-use sentinels as prefix/text identifier and empty derive; the expected output for the variant options is obtained by textual substitution (sentinels replaced, attribute rename line removed exactly when identifier == prefix+local name, derive line inserted before every struct iff non-empty) and must equal the actual output byte for byte; the two presets must agree up to rename lines. Non-trivial = the tree has an attribute, a text field and two or more structs and the options differ from both presets; distinct by hash of documents and options.".into()
+        "tape-decoded document sequences x options (attribute prefix, text identifier and derive string from curated lists that include empty, unicode, quotes, parentheses, newline; both sort orders). The tree is rendered once with private-use sentinels as prefix/text identifier and empty derive; the expected output for the variant options is obtained by textual substitution (sentinels replaced, attribute rename line removed exactly when identifier == prefix+local name, derive line inserted before every struct iff non-empty) and must equal the actual output byte for byte; the two presets must agree up to rename lines; against the reference inference every child name must have a field bound to its local name, renamed exactly when identifier and local name differ. Non-trivial = the tree has an attribute, a text field and two or more structs and the options differ from both presets; distinct by hash of documents and options.".into()
     }
     fn assumptions(&self) -> Vec<String> {
         vec!["option strings come from curated lists (11 prefixes, 10 text identifiers, 15 derive strings) and, one in four, random strings of up to 6/8/40 characters over a 38-character palette (punctuation, quotes, brackets, whitespace, non-ASCII)".into()]
